@@ -25,8 +25,10 @@ RULE = (
 )
 ASSUMPTIONS = [
     "networks are per-sample pure (IdentityNet), like a CNN in eval mode; batch-norm statistics in train mode are outside the property",
-    "bottom-up max_instances is applied when sio.Labels are built (predict(make_labels=True)), which cannot run in this image "
-    "(sleap-io 0.9.2 renamed PredictedInstance.from_numpy keywords); it is not covered here",
+    "bottom-up max_instances is applied when sio.Labels are built: part 'bottomup-labels' drives the real "
+    "_make_labeled_frames_from_generator with generated result dicts; because sleap-io 0.9.2 renamed the "
+    "PredictedInstance.from_numpy keywords, a keyword-translating wrapper is installed for the duration of the call only "
+    "when the old names are rejected (class label shim_sio_from_numpy)",
     "tolerance 1e-5 on coordinates/values (float32 kernels may tile differently for different batch sizes)",
 ]
 TOL = 1e-5
@@ -298,6 +300,100 @@ def evaluate(case):
     return res
 
 
+def evaluate_topk(case):
+    """Bottom-up `max_instances` is applied while `sio.Labels` are built: drive the real
+    `BottomUpPredictor._make_labeled_frames_from_generator` with generated result dicts."""
+    import numpy as np
+    import sleap_io as sio
+    from sleap_nn.inference.predictors import BottomUpPredictor
+
+    res = Result()
+    n = case["n_nodes"]
+    skel = sio.Skeleton(nodes=[f"n{i}" for i in range(n)])
+    videos = [sio.Video(filename=f"v{i}.mp4", open_backend=False) for i in range(3)]
+    pred = BottomUpPredictor()
+    pred.skeletons, pred.videos, pred.max_instances, pred.tracker = [skel], videos, case["max_instances"], None
+    exs = []
+    for b in case["batches"]:
+        exs.append({
+            "video_idx": np.array([f["video_idx"] for f in b]), "frame_idx": np.array([f["frame_idx"] for f in b]),
+            "pred_instance_peaks": [np.array([[[np.nan, np.nan]] * n if inst["allnan"] else [[inst["x"] + j, inst["y"]] for j in range(n)] for inst in f["insts"]], dtype=np.float64).reshape(-1, n, 2) for f in b],
+            "pred_peak_values": [np.full((len(f["insts"]), n), 0.5) for f in b],
+            "instance_scores": [np.array([inst["score"] for inst in f["insts"]], dtype=np.float64) for f in b],
+        })
+    # version pairing: sleap-io 0.9.2 renamed from_numpy(points=, instance_score=) -> (points_data=, score=)
+    orig = sio.PredictedInstance.from_numpy
+    shim = False
+    try:
+        orig(points=np.zeros((n, 2)), skeleton=skel, instance_score=0.1)
+    except TypeError:
+        shim = True
+        f0 = orig.__func__
+
+        def compat(cls, *a, **k):
+            if "points" in k:
+                k["points_data"] = k.pop("points")
+            if "instance_score" in k:
+                k["score"] = k.pop("instance_score")
+            return f0(cls, *a, **k)
+
+        sio.PredictedInstance.from_numpy = classmethod(compat)
+    try:
+        labels = runner.guarded(res, "bottomup-labels", pred._make_labeled_frames_from_generator, iter(exs))
+    finally:
+        if shim:
+            sio.PredictedInstance.from_numpy = orig
+    res.cls("model=bottomup-labels", f"k={case['max_instances']}", "shim_sio_from_numpy" if shim else "no_shim")
+    if labels is runner.FAILED:
+        return res
+    flat = [f for b in case["batches"] for f in b]
+    res.n_evals = len(flat)
+    if len(labels.labeled_frames) != len(flat):
+        res.fail("bottomup-labels:frame-count", f"{len(labels.labeled_frames)} labeled frames for {len(flat)} input frames")
+        return res
+    counts = []
+    for lf, f in zip(labels.labeled_frames, flat):
+        if int(lf.frame_idx) != f["frame_idx"] or labels.videos.index(lf.video) != f["video_idx"]:
+            res.fail("bottomup-labels:wrong-indices", f"frame carries ({lf.frame_idx}, video {labels.videos.index(lf.video)}), expected ({f['frame_idx']}, {f['video_idx']})")
+        valid = sorted((i["score"] for i in f["insts"] if not i["allnan"]), reverse=True)
+        k = case["max_instances"]
+        exp = valid if k is None else valid[:k]
+        got = sorted((float(i.score) for i in lf.instances), reverse=True)
+        counts.append(len(valid))
+        if len(got) != len(exp) or any(abs(a - b) > 1e-9 for a, b in zip(got, exp)):
+            res.fail("bottomup-labels:top-k", f"kept scores {got}, expected the {k} highest of {valid}")
+        for inst in lf.instances:
+            src = [i for i in f["insts"] if not i["allnan"] and abs(i["score"] - float(inst.score)) < 1e-9 and abs(i["x"] - float(inst.numpy()[0, 0])) < 1e-6]
+            if not src:
+                res.fail("bottomup-labels:foreign-instance", f"instance with score {inst.score} at {inst.numpy()[0].tolist()} is not one of the frame's instances")
+    res.nontrivial = len(flat) >= 2 and len(set(counts)) > 1 and case["max_instances"] is not None and any(c > case["max_instances"] for c in counts)
+    return res
+
+
+def strategy_topk():
+    from hypothesis import strategies as st
+
+    @st.composite
+    def case(draw):
+        n = draw(st.integers(1, 3))
+        k = draw(st.sampled_from([None, 1, 2, 3]))
+        batches = []
+        fidx = 0
+        for _ in range(draw(st.integers(1, 3))):
+            b = []
+            for _ in range(draw(st.integers(1, 3))):
+                insts = []
+                for j in range(draw(st.integers(0, 5))):
+                    insts.append({"x": float(10 * j + draw(st.integers(0, 5))), "y": float(draw(st.integers(0, 50))),
+                                  "score": draw(st.sampled_from([0.9, 0.8, 0.7, 0.6, 0.5, 0.4, 0.3])) + 0.001 * j, "allnan": draw(st.integers(0, 5)) == 0})
+                fidx += draw(st.integers(1, 4))
+                b.append({"video_idx": draw(st.integers(0, 2)), "frame_idx": fidx, "insts": insts})
+            batches.append(b)
+        return {"n_nodes": n, "max_instances": k, "batches": batches}
+
+    return case()
+
+
 def strategy():
     from hypothesis import strategies as st
 
@@ -355,6 +451,8 @@ def parts(tier):
     return [
         Part(name="batches", evaluate=evaluate, strategy=strategy, summarize=summarize,
              budget={"quick": 400, "thorough": 10000}, min_nontrivial={"quick": 80, "thorough": 2000}),
+        Part(name="bottomup-labels", evaluate=evaluate_topk, strategy=strategy_topk,
+             budget={"quick": 300, "thorough": 8000}, min_nontrivial={"quick": 30, "thorough": 800}),
     ]
 
 
